@@ -14,9 +14,9 @@ type Profile struct {
 	Propose, Conf, Apply, Crash, CrashMid, Restart float64
 	Compact, Transfer, SnapRep, Unreach, ReadIndex float64
 	Partition, Heal                                float64
-	// a sleeping node is rarely stepped: its queues fill up between two Ready loops. Off (0) in every profile: a node that
-	// handles a vote response, leads, and is deposed inside ONE StepNode sends messages of a term that is over when the
-	// Ready goes out — legal, but the abstract acceptor relates messages to the sender's state at send time and rejects it.
+	// a sleeping node is rarely stepped (and gets no ticks): its queues fill up between two Ready loops, so one StepNode
+	// handles several messages, incl. winning a term and being deposed again inside one step (the acceptor infers such a
+	// leadership from the messages the Ready carries, raftabs 78faf97)
 	Sleep, Wake                    float64
 	HoldSnap, SnapBatch            float64 // MsgSnap kept in the network; MsgSnap + the MsgApp that follows it delivered back to back, then one step
 	PNoMore, PBusy, PRndZero, PAll float64
@@ -49,7 +49,7 @@ var Profiles = map[string]Profile{
 	// while so that several messages (MsgSnap followed by MsgApp, vote + append, ...) are handled by ONE StepNode
 	"lagsnap": {Name: "lagsnap", Tick: 2, Step: 8, Ready: 12, Deliver: 12, Redeliver: 2.5, Drop: 0.2, Propose: 4, Conf: 0.15, Apply: 5,
 		Crash: 0.03, CrashMid: 0.05, Restart: 1.5, Compact: 2.5, Transfer: 0.05, SnapRep: 3, Unreach: 0.1, ReadIndex: 0.03, Partition: 0.35, Heal: 0.3,
-		Sleep: 0, Wake: 0.12, HoldSnap: 0.7, SnapBatch: 40, PNoMore: 0.03, PBusy: 0.03, PRndZero: 0.2, PAll: 0.8, MaxConf: 3},
+		Sleep: 0.25, Wake: 0.2, HoldSnap: 0.7, SnapBatch: 40, PNoMore: 0.03, PBusy: 0.03, PRndZero: 0.2, PAll: 0.8, MaxConf: 3},
 	"stale": {Name: "stale", Tick: 5, Step: 8, Ready: 10, Deliver: 8, Redeliver: 4, Drop: 0.2, Propose: 2, Conf: 0.1, Apply: 3,
 		Crash: 0.06, CrashMid: 0.08, Restart: 1.5, Compact: 0.3, Transfer: 0.4, SnapRep: 1, Unreach: 0.1, ReadIndex: 0.03, Partition: 0.6, Heal: 0.4,
 		PNoMore: 0.03, PBusy: 0.02, PRndZero: 0.4, PAll: 0.7, MaxConf: 3},
@@ -95,8 +95,12 @@ func (g *Gen) rnd() uint32 {
 // Next picks the next event. It never returns an event that is a no-op by construction
 // (disabled events get weight 0) except for partition bookkeeping, which is internal.
 func (g *Gen) Next() Event {
-	for {
+	for tries := 0; ; tries++ {
 		ev, ok := g.next()
+		if !ok && tries > 200 {
+			// hard cap on generator-internal choices in a row
+			ev, ok = Event{K: "tick", N: g.C.IDs()[0]}, true
+		}
 		if ok {
 			g.Hist[ev.K]++
 			return ev
@@ -284,7 +288,15 @@ func (g *Gen) next() (Event, bool) {
 	if len(g.blocked) > 0 {
 		add(p.Heal, Event{K: "_heal"})
 	}
-	if len(cs) == 0 {
+	real := 0
+	for _, x := range cs {
+		if len(x.ev.K) > 0 && x.ev.K[0] != '_' {
+			real++
+		}
+	}
+	if real == 0 {
+		// nothing but generator-internal bookkeeping is possible (every node is gone): a no-op event, so that
+		// Next always terminates
 		return Event{K: "tick", N: c.IDs()[0]}, true
 	}
 	tot := 0.0
